@@ -130,8 +130,9 @@ impl<'a> Sink<'a> {
                     _ => false,
                 };
                 // after an injected fault the white-box state is part of the observation (C10): read it through the hook
+                let dt = cmp_count() - c0;   // comparisons of the interrupted call, the panicking one and any made while unwinding included
                 let st = if matches!(op, Op::Crash { .. }) {
-                    catch_unwind(AssertUnwindSafe(|| format!("{} {}", q.kind().name(), q.snapshot_core()))).unwrap_or_else(|_| "-".into())
+                    catch_unwind(AssertUnwindSafe(|| format!("{} {} t {}", q.kind().name(), q.snapshot_core(), dt))).unwrap_or_else(|_| "-".into())
                 } else {
                     "-".into()
                 };
